@@ -65,6 +65,7 @@ def matcher_case(draw, tier):
             "prefix": draw(st.sampled_from(gen.PREFIXES)),
             "out_sim_score": draw(st.booleans()), "n_jobs": n_jobs,
             "real": n_jobs in (2, 3) and draw(st.integers(0, 11)) == 0,
+            "show_progress": draw(st.integers(0, 3)) == 0,
             "pad": draw(st.integers(0, 2))}
     return case
 
@@ -77,7 +78,7 @@ def run_matcher(ctx, case, C, L, R, tok, fn, n_jobs=None, real=False):
                        case["L"]["key"], case["R"]["key"], case["L"]["attr"], case["R"]["attr"],
                        tok, fn, case["threshold"], case["op"], case["allow_missing"],
                        case["l_out"], case["r_out"], case["prefix"][0], case["prefix"][1],
-                       case["out_sim_score"], nj, False)
+                       case["out_sim_score"], nj, bool(case.get("show_progress", False)))
 
 
 def model(case, L, R):
